@@ -233,6 +233,15 @@ def main():
             break
         c = gen_interactive(ck)
         run_walk(ck, {"gd": c["gd"], "cfg": c["cfg"]})
+    # deep directed graphs (many layers): the walk's seen-set is compacted several times
+    for _ in range(12 if not ck.thorough else 200):
+        if ck.enough():
+            break
+        gd = graphs.deep_directed_def(ck.rng)
+        if gd.brute_layers(cap=3000) is None:
+            continue
+        run_walk(ck, {"gd": gd.to_json(), "cfg": graphs.gen_cfg(ck.rng, gd)})
+        ck.count("walk:deep-directed")
     check_rank_tables(ck)
     # bit-mask engine: n = 9 (quick), n = 9 and 10 (thorough); inverse-closed and not; with and without depth limit
     n = 9
